@@ -1,10 +1,10 @@
 ------------------------------ MODULE ConnTable ------------------------------
 (* G04 "connection tables": how the two connection-oriented transports of go-p2p manage their        *)
-(* per-peer connections, as coded (after the four repairs listed under Fixes):                         *)
+(* per-peer connections, as coded (after the five repairs listed under Fixes):                         *)
 (*   quic  /repo/s/quicswarm/quicswarm.go   sessCache map[sessionKey{addr, outbound}]quic.Connection   *)
 (*         withSession :255  putSession :423  serve :292  handleSession :315  Close :195               *)
 (*   ssh   /repo/s/sshswarm/swarm.go        conns map[string]*Conn, one key per remote address          *)
-(*         getConn :171  addConn :226  deleteConn :232  serveLoop :205  conn.go loop :130  Close :196   *)
+(*         getConn :184  addConn :247  deleteConn :257  serveLoop :222  Close :84  conn.go loop :130     *)
 (* One action per critical section.  A connection has a client end and a server end; an end is         *)
 (*   "hs"     client end while dialling / shaking hands                                                *)
 (*   "none"   server end before Accept / newServer has produced it                                     *)
@@ -34,7 +34,7 @@ CONSTANTS
     MaxEnv,     \* environment events (Kill, Restart, Expire, CloseSwarm)
     Fixes       \* the repairs that are in the code; the current tree has AllFixes
 
-AllFixes == {"removeOwn", "closeMismatch", "sshRemoveDead", "sshCloseLoser"}
+AllFixes == {"removeOwn", "closeMismatch", "sshRemoveDead", "sshCloseLoser", "sshCloseAll"}
 \*  removeOwn      quicswarm handleSession removes the cache entry only if it still holds THIS session
 \*                 (it deleted by key: the end of an overwritten session removed its live successor)
 \*  closeMismatch  quicswarm withSession closes a dialled session whose peer is not the wanted identity
@@ -42,6 +42,10 @@ AllFixes == {"removeOwn", "closeMismatch", "sshRemoveDead", "sshCloseLoser"}
 \*  sshRemoveDead  sshswarm Conn.loop removes its connection from the table when it ends (nothing ever
 \*                 did: after one broken connection the peer was unreachable for ever)
 \*  sshCloseLoser  sshswarm getConn closes the connection that lost the race against a concurrent dial
+\*  sshCloseAll    sshswarm Close closes every connection in its table and marks the swarm closed: getConn
+\*                 then closes a connection it has just dialled and returns ErrClosed, addConn refuses an
+\*                 accepted one (Close closed the hubs and the listener only: tables, loop goroutines and
+\*                 transports stayed for ever; formerly recorded as C12:AllReleased:sshswarm/...)
 Fixed(f) == f \in Fixes
 
 Quic == Transport = "quic"
@@ -50,8 +54,8 @@ Ssh == Transport = "ssh"
 \* Recorded findings, modelled as coded and not re-reported:
 \*  quicswarm.putSession overwrites a live session with the same key without closing it (G04:NoOrphan:quicswarm/replaced-session)
 KF_QuicReplaceKeepsOpen == Quic
-\*  sshswarm.Close closes neither its connections nor its table (C12:AllReleased:sshswarm/s/sshswarm.(*Conn).loop)
-KF_SshCloseKeepsConns == Ssh
+\* a closed swarm refuses connections that complete after Close (quic: transport and listener are gone)
+RefusesWhenClosed == Quic \/ Fixed("sshCloseAll")
 
 VARIABLES
     inc,        \* [Nodes -> Nat] incarnation of the node at that address
@@ -142,7 +146,7 @@ StartOp(n, kind, to, id, via) ==
                        healthy |-> HealthyAt(n, to, id, via) /\ \A k \in 1..Len(ops) : Pending(k) => ops[k].id = ops[k].to])
     /\ UNCHANGED <<inc, closed, conns, tab, msgs, dl, nenv, replaced, lastsrc>>
 
-\* quicswarm withSession :256-264 (inbound entry first, then outbound); sshswarm getConn :172-177
+\* quicswarm withSession :256-264 (inbound entry first, then outbound); sshswarm getConn :185-190
 Lookup(k) ==
     LET o == ops[k]
         kIn == [id |-> o.id, ad |-> o.to, dir |-> "in", eph |-> IF Ssh THEN o.via ELSE 0]
@@ -176,8 +180,9 @@ DialDone(k) ==
         old == Find(tab[o.n], key)
     IN
     /\ o.pc = "hs"
-    /\ IF conns[c].broken \/ ~Current(c, "sv") \/ (Quic /\ (closed[o.to] \/ closed[o.n]))
-       THEN \* the handshake failed (peer gone, connection cut, own transport closed)
+    /\ IF conns[c].broken \/ ~Current(c, "sv") \/ (Quic /\ (closed[o.to] \/ closed[o.n])) \/ (Ssh /\ Fixed("sshCloseAll") /\ closed[o.n])
+       THEN \* the handshake failed (peer gone, connection cut, own transport closed); sshswarm getConn :205-208: the
+            \* swarm was closed meanwhile, the fresh connection is closed, ErrClosed
             /\ conns' = [EndBoth(conns, c) EXCEPT ![c].ce = "closed"]
             /\ ops' = Done(ops, k, "err")
             /\ UNCHANGED <<tab, replaced>>
@@ -197,32 +202,34 @@ DialDone(k) ==
             /\ conns' = [conns EXCEPT ![c].ce = "open"]
             /\ ops' = [ops EXCEPT ![k].pc = "use"]
        ELSE IF old # 0
-       THEN \* getConn :193-198: somebody else connected in the meantime, use theirs
+       THEN \* getConn :210-215: somebody else connected in the meantime, use theirs
             /\ ops' = [ops EXCEPT ![k].pc = "use", ![k].c = old]
             /\ conns' = IF Fixed("sshCloseLoser") THEN [EndBoth(conns, c) EXCEPT ![c].ce = "closed"]
                         ELSE [conns EXCEPT ![c].ce = "zomb"]
             /\ UNCHANGED <<tab, replaced>>
-       ELSE \* getConn :199-200: store it, go c.loop
+       ELSE \* getConn :216-217: store it, go c.loop
             /\ tab' = [tab EXCEPT ![o.n] = Put(@, key, c)]
             /\ conns' = [conns EXCEPT ![c].ce = "open"]
             /\ ops' = [ops EXCEPT ![k].pc = "use"]
             /\ UNCHANGED replaced
     /\ UNCHANGED <<inc, closed, msgs, dl, nenv, lastsrc>>
 
-\* quicswarm serve :292-313 / sshswarm serveLoop :205-223: the server side of a new connection
+\* quicswarm serve :292-313 / sshswarm serveLoop :222-244 (addConn :247 refuses after Close): the server side of a new connection
 AcceptDone(c) ==
     LET n == conns[c].sv
         key == KeyAt(c, "sv")
         old == Find(tab[n], key)
     IN
     /\ conns[c].se = "none"
-    /\ IF Current(c, "sv") /\ ~conns[c].broken /\ conns[c].ce \in {"hs", "open", "zomb"} /\ ~(Quic /\ closed[n])
+    /\ IF Current(c, "sv") /\ ~conns[c].broken /\ conns[c].ce \in {"hs", "open", "zomb"} /\ ~(RefusesWhenClosed /\ closed[n])
        THEN /\ tab' = [tab EXCEPT ![n] = Put(@, key, c)]          \* putSession / addConn overwrite
             /\ replaced' = IF old # 0 /\ old # c /\ conns[old].se = "open" THEN replaced \cup {<<old, "sv">>} ELSE replaced
             /\ conns' = [conns EXCEPT ![c].se = "open"]
        ELSE \* the connection was over before the server side came to it (whether it was accepted and
             \* removed again or never accepted makes no observable difference)
-            /\ conns' = [conns EXCEPT ![c].se = "closed"]
+            \* (ssh: the server side closes the TCP connection, the client learns it; quic: a client whose peer's
+            \*  transport is gone learns nothing, its end is stale)
+            /\ conns' = IF Ssh THEN [EndBoth(conns, c) EXCEPT ![c].se = "closed"] ELSE [conns EXCEPT ![c].se = "closed"]
             /\ UNCHANGED <<tab, replaced>>
     /\ UNCHANGED <<inc, closed, ops, msgs, dl, nenv, lastsrc>>
 
@@ -365,13 +372,26 @@ Expire(n) ==
 \* Swarm.Close.  quic :195-211: cancel the handlers' context (each closes its session and removes its
 \* entry), close listener, inner swarm and transport (every remaining session ends); a peer learns of
 \* each session only if the CONNECTION_CLOSE got out before the inner swarm was closed.
-\* ssh :83-87: the hubs and the listener are closed, nothing else (KF_SshCloseKeepsConns).
+\* ssh :84-100: hubs and listener are closed, the swarm is marked closed, every connection in the table is closed
+\* (Conn.Close: close the transport, deleteConn); the peers learn it (TCP).  Connections outside the table are not
+\* touched; one whose handshake is still running is closed when it completes (DialDone / AcceptDone).
+\* Without sshCloseAll: hubs and listener only.
 CloseSwarm(n) ==
     /\ nenv < MaxEnv /\ ~closed[n]
     /\ closed' = [closed EXCEPT ![n] = TRUE]
-    /\ IF Ssh THEN UNCHANGED conns
-       ELSE \E told \in SUBSET {c \in CIds : conns[c].cl = n \/ conns[c].sv = n} :
-            conns' = [c \in CIds |->
+    /\ IF Ssh /\ ~Fixed("sshCloseAll") THEN UNCHANGED <<conns, tab>>
+       ELSE IF Ssh THEN
+            LET mineC == {e.c : e \in tab[n]} IN
+            /\ conns' = [c \in CIds |->
+                    IF c \notin mineC THEN conns[c]
+                    ELSE LET mine == SideOf(c, n)
+                             x == [conns[c] EXCEPT !.broken = TRUE]
+                         IN IF mine = "cl" THEN [x EXCEPT !.ce = "closed", !.se = Notified(@)]
+                            ELSE [x EXCEPT !.se = "closed", !.ce = IF @ = "hs" THEN "hs" ELSE Notified(@)]]
+            /\ tab' = [tab EXCEPT ![n] = {}]
+       ELSE /\ UNCHANGED tab
+            /\ \E told \in SUBSET {c \in CIds : conns[c].cl = n \/ conns[c].sv = n} :
+               conns' = [c \in CIds |->
                 LET mine == SideOf(c, n)
                     x == conns[c]
                 IN IF ~(x.cl = n \/ x.sv = n) \/ ~Current(c, mine) THEN x
@@ -381,7 +401,7 @@ CloseSwarm(n) ==
                            ELSE IF mine = "cl" THEN [y EXCEPT !.se = Notified(@)] ELSE [y EXCEPT !.ce = IF @ = "hs" THEN "hs" ELSE Notified(@)]]
     /\ ops' = Unhealthy(ops)
     /\ nenv' = nenv + 1
-    /\ UNCHANGED <<inc, tab, msgs, dl, replaced, lastsrc>>
+    /\ UNCHANGED <<inc, msgs, dl, replaced, lastsrc>>
 
 Env ==
     \/ \E a, b \in Nodes : a < b /\ Kill(a, b)
@@ -409,8 +429,8 @@ DeadRemovedP(ents) == \A e \in ents : e.alive
 \* L3  after quiescence every open connection end is in its node's table: nothing leaks, and (a table being a
 \*     map) there is at most one connection per key
 NoOrphanP(orph) == orph = 0
-\* L4  quic: a closed swarm holds nothing.  (ssh: KF_SshCloseKeepsConns, not claimed)
-AfterCloseP(tr, ents, closedNodes) == tr = "quic" => \A e \in ents : e.n \notin closedNodes
+\* L4  a closed swarm holds nothing
+AfterCloseP(ents, closedNodes) == \A e \in ents : e.n \notin closedNodes
 \* L5  an operation addressed to an identity that does not live at the address fails
 OkOnlyIfPeerP(o) == o.res = "ok" => o.id = o.to
 \* L6  what is delivered is delivered at the addressed node, which has the addressed identity, and names its
@@ -438,12 +458,11 @@ StepLaws ==
     /\ \A d \in dl : DeliveryRightP(d, OpObs(d.k))
     /\ AtMostOnceP(dl)
 DeadRemoved == Quiescent => DeadRemovedP(Entries)
-AfterClose == Quiescent => AfterCloseP(Transport, Entries, ClosedNodes)
+AfterClose == Quiescent => AfterCloseP(Entries, ClosedNodes)
 HealthyDelivered == Quiescent => \A k \in 1..Len(ops) : HealthyDeliveredP(OpObs(k), k \in TellsDelivered)
 \* every orphan is an overwritten session of the recorded finding; none at all for ssh
 NoOrphan == Quiescent => OrphanEnds \subseteq (IF KF_QuicReplaceKeepsOpen THEN replaced ELSE {})
 NoOrphanStrict == Quiescent => NoOrphanP(Orph)
-AfterCloseStrict == Quiescent => \A e \in Entries : e.n \notin ClosedNodes
 
 \* liveness: every operation returns (no livelock of mutual replacement between simultaneous opens)
 AllReturn == <>[](\A k \in 1..Len(ops) : ~Pending(k))
